@@ -436,62 +436,48 @@ parameter `lg`.  Pos = every likelihood positive (finite log-likelihood), every 
 section information
 open NessaiVerif.Info
 
-/-- **Closed form of the code's information recursion**, for every logarithm function `lg`, every ordered
-field and every number of increments ≥ 1: one value is appended per increment except the first
-(`oldZ = -inf`), the accumulated `Z` is the rectangle sum, and the last value is
-`(Z₁ lg Z₁ + Σ_{i≥2} W_i lg L_i) / Z - lg Z`. -/
-theorem info_closed_form [LinearOrder K] [IsStrictOrderedRing K] (lg : K → K) (p : K × K)
-    (rest : List (K × K)) (h : Pos (p :: rest)) :
-    let s := (ISt.init : ISt K).run lg (p :: rest)
-    s.last = closedForm lg (p :: rest) ∧ s.info.length = 1 + rest.length ∧
-      s.Z = sumL (terms 1 (p :: rest)) := by
-  obtain ⟨L, t⟩ := p
+/-- **The code's information recursion computes the textbook information** `H = Σ (W_i/Z) lg L_i - lg Z`
+(Skilling), for every logarithm function `lg`, every ordered field and every number of increments ≥ 2: one value
+is appended per increment except the first (`oldZ = -inf`; the second increment starts from the first point's own
+information `lg L₁ - lg Z₁`), and the accumulated `Z` is the rectangle sum. -/
+theorem info_eq_textbook [LinearOrder K] [IsStrictOrderedRing K] (lg : K → K) (p q : K × K)
+    (rest : List (K × K)) (h : Pos (p :: q :: rest)) :
+    let s := (ISt.init : ISt K).run lg (p :: q :: rest)
+    s.last = textbook lg (p :: q :: rest) ∧ s.info.length = 2 + rest.length ∧
+      s.Z = sumL (terms 1 (p :: q :: rest)) := by
+  obtain ⟨L1, t1⟩ := p
+  obtain ⟨L, t⟩ := q
   have hp := h.head
-  simp only at hp
-  have h1t : 0 < 1 - t := by linarith [hp.2.2]
-  have hZ1 : (0 : K) < 0 + 1 * L * (1 - t) := by
-    have : (0 : K) < 1 * L * (1 - t) := mul_pos (mul_pos one_pos hp.1) h1t
-    linarith
+  have hq := h.tail.head
+  simp only at hp hq
   simp only [ISt.run, first_step]
-  have r := run_from lg (⟨0 + 1 * L * (1 - t), 1 * t, [0]⟩ : ISt K)
-    ((0 + 1 * L * (1 - t)) * lg (0 + 1 * L * (1 - t))) hZ1 (mul_pos one_pos hp.2.1)
-    (by simp only [ISt.last, List.getLastD_cons, List.getLastD_nil]
-        rw [mul_div_cancel_left₀ _ (ne_of_gt hZ1)]; exact (sub_self _).symm) rest h.tail
+  rw [second_step lg L1 t1 L t hp.1 hp.2.2 hq.1 hq.2.2 hp.2.1]
+  have hZ1 : (0 : K) < 1 * L1 * (1 - t1) := mul_pos (mul_pos one_pos hp.1) (by linarith [hp.2.2])
+  have hW : (0 : K) < 1 * t1 * L * (1 - t) := mul_pos (mul_pos (mul_pos one_pos hp.2.1) hq.1) (by linarith [hq.2.2])
+  have hZ2 : (0 : K) < 0 + 1 * L1 * (1 - t1) + 1 * t1 * L * (1 - t) := by linarith
+  have r := run_from lg
+    (⟨0 + 1 * L1 * (1 - t1) + 1 * t1 * L * (1 - t), 1 * t1 * t,
+      [0, ((1 * L1 * (1 - t1)) * lg L1 + (1 * t1 * L * (1 - t)) * lg L) / (0 + 1 * L1 * (1 - t1) + 1 * t1 * L * (1 - t))
+          - lg (0 + 1 * L1 * (1 - t1) + 1 * t1 * L * (1 - t))], L⟩ : ISt K)
+    ((1 * L1 * (1 - t1)) * lg L1 + (1 * t1 * L * (1 - t)) * lg L) hZ2
+    (mul_pos (mul_pos one_pos hp.2.1) hq.2.1) (by simp)
+    (by simp [ISt.last]) rest h.tail.tail
   simp only at r
   refine ⟨?_, ?_, ?_⟩
-  · rw [r.1]; simp only [closedForm, zero_add]
+  · rw [r.1]; simp only [textbook, terms, sumL, weightedLogs, zero_add]
+    congr 1
+    · congr 1 <;> ring
+    · congr 1; ring
   · rw [r.2.2]; simp
-  · rw [r.2.1]; simp only [terms, sumL, zero_add]
+  · rw [r.2.1]; simp only [terms, sumL, zero_add]; ring
 
-example := info_closed_form (K := ℚ) (fun x => x) (1, 1 / 2) [(2, 1 / 2)] (by
-  intro p hp; simp at hp; rcases hp with rfl | rfl <;> norm_num)
+example := info_eq_textbook (K := ℚ) (fun x => x) (1, 1 / 2) (2, 1 / 2) [(3, 1 / 2)] (by
+  intro p hp; simp at hp; rcases hp with rfl | rfl | rfl <;> norm_num)
 
-/-- the model run on two increments (at `lg = id`, exact rationals): `info = [0, 1/4]`, `Z = 1` -/
-example : ((ISt.init : ISt ℚ).run (fun x => x) [(1, 1 / 2), (2, 1 / 2)]).info = [0, 1 / 4] := by
+/-- the model run on two increments (at `lg = id`, exact rationals): `info = [0, 1/2]`, i.e.
+`(W₁·1 + W₂·2)/Z - Z = (1/2 + 1)/1 - 1` -/
+example : ((ISt.init : ISt ℚ).run (fun x => x) [(1, 1 / 2), (2, 1 / 2)]).info = [0, 1 / 2] := by
   norm_num [ISt.run, ISt.step, ISt.init]
-
-/-- **The code's information vs the textbook information** `H = Σ (W_i/Z) lg L_i - lg Z` (for every `lg`):
-they differ by the first dead point's term, `(W₁ / Z) (lg W₁ - lg L₁)`. -/
-theorem info_vs_textbook (lg : K → K) (L t : K) (rest : List (K × K)) :
-    closedForm lg ((L, t) :: rest) =
-      textbook lg ((L, t) :: rest) +
-        (1 * L * (1 - t)) * (lg (1 * L * (1 - t)) - lg L) / sumL (terms 1 ((L, t) :: rest)) := by
-  simp only [closedForm, textbook, terms, sumL, weightedLogs]
-  ring
-
-/-- …over ℝ with the real logarithm the difference is `p₁ · log(1 - t₁)`, `p₁ = W₁ / Z` the posterior weight
-of the first dead point: a NEGATIVE correction (the recursion starts from `info = 0` after the first point
-instead of from `-log(1 - t₁)`). -/
-theorem info_vs_textbook_real (L t : ℝ) (rest : List (ℝ × ℝ)) (hL : 0 < L) (ht : t < 1) :
-    closedForm Real.log ((L, t) :: rest) =
-      textbook Real.log ((L, t) :: rest) +
-        (L * (1 - t)) / sumL (terms 1 ((L, t) :: rest)) * Real.log (1 - t) := by
-  rw [info_vs_textbook]
-  have h1t : (0 : ℝ) < 1 - t := by linarith
-  rw [one_mul, Real.log_mul (ne_of_gt hL) (ne_of_gt h1t)]
-  ring
-
-example := info_vs_textbook_real 1 (1 / 2) [(1, 1 / 2)] one_pos (by norm_num)
 
 /-- **The textbook information is non-negative** (Gibbs' inequality; ℝ, real logarithm, any run of ≥ 1
 increments with positive likelihoods and shrinkages in (0,1)): `H ≥ -log(1 - X_N) ≥ 0`, where
@@ -506,11 +492,34 @@ theorem textbook_info_nonneg (steps : List (ℝ × ℝ)) (h : Pos steps) (hne : 
 example := textbook_info_nonneg [(1, 1 / 2), (1, 1 / 2)]
   (by intro p hp; simp at hp; rcases hp with rfl | rfl <;> norm_num) (by simp) 10
 
-/-- **…but the code's value can be negative, and then the reported uncertainty is NaN** (known finding,
-reproduced on the real `_NSIntegralState` by the harness): two dead points of equal likelihood with shrinkage
-1/2 give `info = (2/3) log(1/2) - log(3/4) < 0`.  More generally a (nearly) flat likelihood drives the textbook
-`H` to 0 while the correction `p₁ log(1 - t₁)` stays. -/
-theorem code_info_can_be_negative :
+/-- **The reported uncertainty is never NaN**: over ℝ with the real logarithm, after ≥ 2 increments with positive
+likelihoods and shrinkages in (0,1) — ties and flat likelihoods included — the information accumulated by the code is
+non-negative, so `log_evidence_error = sqrt(info / nlive)` is a real number. -/
+theorem code_info_nonneg (p q : ℝ × ℝ) (rest : List (ℝ × ℝ)) (h : Pos (p :: q :: rest)) (nlive : Nat) :
+    0 ≤ ((ISt.init : ISt ℝ).run Real.log (p :: q :: rest)).last ∧
+      errSq ((ISt.init : ISt ℝ).run Real.log (p :: q :: rest)).last nlive ≠ none := by
+  have e := (info_eq_textbook Real.log p q rest h).1
+  rw [e]
+  exact textbook_info_nonneg _ h (by simp) nlive
+
+example := code_info_nonneg (1, 1 / 2) (1, 1 / 2) [] (by
+  intro p hp; simp at hp; rcases hp with rfl | rfl <;> norm_num) 10
+
+/-- **Why the first point matters** (the defect repaired by `fix: start the information estimate from the first
+point`): `closedForm` is the value of the recursion when the first dead point's own information is dropped
+(continuing from `info = 0`, as the code did); it differs from the textbook value by `(W₁/Z)(lg W₁ - lg L₁)` — over ℝ
+`p₁ · log(1 - t₁) < 0` — … -/
+theorem info_without_first_point (lg : K → K) (L t : K) (rest : List (K × K)) :
+    closedForm lg ((L, t) :: rest) =
+      textbook lg ((L, t) :: rest) +
+        (1 * L * (1 - t)) * (lg (1 * L * (1 - t)) - lg L) / sumL (terms 1 ((L, t) :: rest)) := by
+  simp only [closedForm, textbook, terms, sumL, weightedLogs]
+  ring
+
+/-- … and it can be negative, which made the reported uncertainty NaN: two dead points of equal likelihood with
+shrinkage 1/2 give `(2/3) log(1/2) - log(3/4) < 0` (reproduced on the real `_NSIntegralState` before the repair:
+`nlive = 1000`, 8000 equal likelihoods, `info = -0.0066`, `log_evidence_error = nan`). -/
+theorem info_without_first_point_can_be_negative :
     closedForm Real.log [((1 : ℝ), 1 / 2), (1, 1 / 2)] < 0 ∧
       errSq (closedForm Real.log [((1 : ℝ), 1 / 2), (1, 1 / 2)]) 10 = none := by
   have key : closedForm Real.log [((1 : ℝ), 1 / 2), (1, 1 / 2)] < 0 := by
